@@ -161,7 +161,20 @@ func (d Lopd) Iter() fp.Iterator[int] {
 	return iterator.ReverseSeq(rev)
 }
 
+// ListInts walks the (lazy, persistent) list twice: the second traversal of the same list value
+// must yield what the first one did (core/rerun.go).
 func ListInts(l fp.List[int]) []int {
+	out := listInts(l)
+	if c := Cur; c != nil {
+		c.W.Add("rerun.runs."+c.P.Pkg, 1)
+		if again := listInts(l); ShowInts(again) != ShowInts(out) {
+			c.Fail(KeyRerun, "the same list value yielded %v on the first traversal and %v on the second", out, again)
+		}
+	}
+	return out
+}
+
+func listInts(l fp.List[int]) []int {
 	out := []int{}
 	n := 0
 	for l.NonEmpty() {
@@ -173,6 +186,11 @@ func ListInts(l fp.List[int]) []int {
 	}
 	return out
 }
+
+// Twice: the combinator is called twice — on the same persistent operands, or on identically
+// rebuilt ones where they are single-use (Iterator) —, the second result must equal the first and
+// the first, kept as returned, must read the same afterwards.
+func (c *Cas) Twice(call func() []int) []int { return Rerun(c, call, ShowInts) }
 
 func IterInts(it fp.Iterator[int]) []int {
 	out := []int{}
